@@ -9,6 +9,7 @@
 #include <QFile>
 #include <QJsonDocument>
 #include <QJsonObject>
+#include <QProcess>
 #include <QVariant>
 #include <QTemporaryDir>
 #include <qhttpengine/localauthmiddleware.h>
@@ -143,11 +144,36 @@ static Val run_lauth_unique(const Val &c)
         seen.insert(tokenOf(home.path() + "/.hxverif"));
     }
     qputenv("HOME", oldHome);
-    return Val::List({Val::Int(seen.size())});
+    if (c.size() < 2) return Val::List({Val::Int(seen.size())});
+    // ( n p ): besides, p fresh processes of this harness each create their FIRST instance: those tokens differ as well
+    QSet<QByteArray> first;
+    for (long long i = 0; i < c.at(1).asInt(); ++i) {
+        QProcess child;
+        child.start(QCoreApplication::applicationFilePath(), QStringList());
+        if (!child.waitForStarted(5000)) continue;
+        child.write("lauth_first ( )\n");
+        child.closeWriteChannel();
+        child.waitForFinished(15000);
+        first.insert(child.readAllStandardOutput().trimmed());
+    }
+    return Val::List({Val::Int(seen.size()), Val::Int(first.size())});
+}
+
+// the token of the first instance this process creates:  ( ) -> ( token )
+static Val run_lauth_first(const Val &)
+{
+    QTemporaryDir home(QDir::tempPath() + "/hxverif-home-XXXXXX");
+    QByteArray oldHome = qgetenv("HOME");
+    qputenv("HOME", home.path().toUtf8());
+    QByteArray token;
+    { LocalAuthMiddleware mw; token = tokenOf(home.path() + "/.hxverif"); }
+    qputenv("HOME", oldHome);
+    return Val::List({Val::Bytes(token)});
 }
 
 void reg_lauth()
 {
     registerFamily("lauth", run_lauth);
     registerFamily("lauth_unique", run_lauth_unique);
+    registerFamily("lauth_first", run_lauth_first);
 }
